@@ -6,10 +6,10 @@ from harness import worlda
 PROP = "C02"
 CONFIG = worlda.base_config(
     rule="seeded sequential histories of APPEND / COPY / MOVE into mailboxes, EXPUNGE of arbitrary subsets (often the last message, so MH re-uses the number), "
-    "external deliveries, CREATE/DELETE/re-CREATE/RENAME (incl. INBOX and delete-to-\\Noselect), orderly restarts (cancel and idle-expiry) and a lowered pack "
+    "external deliveries (also ones landing in the very second the server last wrote the folder, which it cannot notice until the folder changes again), CREATE/DELETE/re-CREATE/RENAME (incl. INBOX and delete-to-\\Noselect), orderly restarts (cancel and idle-expiry) and a lowered pack "
     "threshold. A driver-side ledger of every (mailbox incarnation, UID) -> content token ever revealed, of every UIDNEXT/UIDVALIDITY told (SELECT, STATUS, "
     "APPENDUID, COPYUID) is checked after every response, i.e. on every prefix of the history. non-trivial = >=1 message added or removed; distinct = op signatures",
-    level_text="ledger invariants (no UID re-binding, ascending UIDs, UIDNEXT above every revealed UID and non-decreasing, APPENDUID/COPYUID naming the messages "
+    level_text="ledger invariants (no UID re-binding, the UID an APPENDUID/COPYUID reported always holds that message, ascending UIDs, UIDNEXT above every revealed UID and non-decreasing, APPENDUID/COPYUID naming the messages "
     "actually created, UIDVALIDITY stable per incarnation and growing across re-creation) over seeded histories incl. restarts; the crash_points half of the "
     "quantifier is decided by C11's crash enumeration, which uses the same ledger.",
     expected_probes=["deliveries", "expunge_removed_messages"],
@@ -37,6 +37,8 @@ def post(prog, r, tier, prof):
         if op.get("op") == "expunge" and r.random() < 0.4:
             out.append({"actor": "agent", "op": "deliver", "mbox": r.choice(prof["mailboxes"]), "count": 1, "unseen": True})
     prog["ops"] = out
+    if r.random() < 0.5:
+        _common.inject_stealth(prog, r, 0.25)
     return prog
 
 
